@@ -16,7 +16,7 @@ META = {
 THEOREMS = ["Qentem.Props.C15." + t for t in [
     "str_consistent", "str_trichotomy", "str_lt_gt_dual", "str_le_ge_dual", "str_dual", "str_le_iff", "str_ge_iff",
     "str_ne_iff", "str_eq_iff_eq", "str_lt_trans", "str_trans", "str_lt_iff_lex", "str_prefix_lt", "str_cursor_model",
-    "value_order_laws_false", "value_nan_not_consistent", "val_le_iff", "val_ge_iff", "val_consistent_partial",
+    "value_order_laws_false", "value_nan_not_consistent", "val_lt_pointer_right", "val_lt_pointer_left", "val_le_iff", "val_ge_iff", "val_consistent_partial",
     "val_gt_eq_lt_swap", "val_eq_comm", "val_dual_partial", "val_lt_trans_partial", "val_trans_partial",
     "val_eq_iff_partial", "fixed_consistent", "fixed_dual", "fixed_trans", "fixed_agrees_on_equal_nesting", "val_lt_irrefl",
     "val_lt_same_kind", "val_lt_cross_kind", "value_type_ranks",
@@ -140,7 +140,7 @@ def strings_stage(ctx, rep, exe, drv):
         hi = {"1": 127, "2": 0xFFFF, "4": 0x10FFFF, "W": 0x10FFFF, "1s": 255}[w]
         pool = [0, 1, 97, 98, hi, hi - 1, 127, 128, 255] if hi >= 255 else [0, 1, 97, 98, hi, hi - 1]
         return [min(rng.choice(pool) if rng.random() < 0.5 else rng.randrange(0, hi + 1), hi) for _ in range(n)]
-    N = 6000 if not ctx.thorough else 120000
+    N = 6000 if not ctx.thorough else 400000
     for _ in range(N):
         w = rng.choice(["1", "2", "4", "W", "1s"])
         a = rand_units(w, rng.randrange(0, 40))
@@ -266,7 +266,7 @@ def sorts_stage(ctx, rep, exe, drv):
                 for asc in "10":
                     lines.append("%s %s %s" % ("ordsortv" if (len(t) + int(asc)) % 2 else "ordsorta", asc, lst))
     clean = [z for z in ZOO if known_class([z, "u"]) is None]
-    for _ in range(1500 if not T else 30000):
+    for _ in range(1500 if not T else 120000):
         n = rng.randrange(0, 60)
         r = rng.random()
         src = clean if r < 0.8 else ZOO
@@ -300,7 +300,7 @@ def sorts_stage(ctx, rep, exe, drv):
         for t in itertools.product(["e", "97", "97.98"], repeat=n):
             for asc in "10":
                 lines.append("ordsorts %s %s %s" % (asc, "124"[(n + int(asc)) % 3], ",".join(t) if t else "-"))
-    for _ in range(800 if not T else 20000):
+    for _ in range(800 if not T else 60000):
         w = rng.choice(["1", "2", "4", "1s"])
         hi = {"1": 127, "2": 0xFFFF, "4": 0x10FFFF, "1s": 255}[w]
         base = [rng.choice([0, 97, 98, hi, 128 if hi >= 128 else 1]) for _ in range(rng.randrange(0, 8))]
@@ -333,7 +333,7 @@ def sorts_stage(ctx, rep, exe, drv):
         for t in itertools.product(["+97=1", "+97.98=2", "+98=3", "!97", "!97.98", "+e=4"], repeat=n):
             for asc in "10":
                 lines.append("%s %s %s" % ("ordsorto" if (n + int(asc)) % 2 else "ordsorth", asc, ",".join(t) if t else "-"))
-    for _ in range(2500 if not T else 40000):
+    for _ in range(2500 if not T else 120000):
         ks = keys if rng.random() < 0.5 else [stok([rng.choice([97, 98, 99]) for _ in range(rng.randrange(0, 4))]) for _ in range(rng.randrange(1, 40))]
         ops = gen_ops(rng, ks, rng.randrange(0, 48))
         lines.append("%s %s %s" % (rng.choice(["ordsorto", "ordsorth"]), rng.choice("01"), ",".join(ops) if ops else "-"))
@@ -364,7 +364,7 @@ def sorts_stage(ctx, rep, exe, drv):
 
     # ---- template loop sort= attribute renders the sorted copy
     lines = []
-    for _ in range(300 if not T else 5000):
+    for _ in range(300 if not T else 20000):
         arr = []
         for _ in range(rng.randrange(0, 12)):
             if rng.random() < 0.6:
@@ -372,7 +372,12 @@ def sorts_stage(ctx, rep, exe, drv):
             else:
                 arr.append("n%d" % rng.choice([0, 1, 2, 9, 10, 11, 99, 100, 12345, rng.randrange(0, 10 ** 9)]))
         lines.append("ordloop %s %s" % (rng.choice("01"), ",".join(arr) if arr else "-"))
-    run_both(ctx, exe, drv, "loop-sort-attribute", lines, nontrivial=lambda l: "," in l)
+    impl, model = run_both(ctx, exe, drv, "loop-sort-attribute", lines, nontrivial=lambda l: "," in l)
+    olines = ["ordoracleloop %s %s %s" % (l.split(" ")[1], l.split(" ")[2], o) for l, o in zip(lines, impl) if not o.startswith("FAULT") and o != "bad-op"]
+    for v, ol in zip(oracle(ctx, drv, olines), olines):
+        if v != "ok":
+            rep.fail("loop-sort:" + v, "<loop sort=...> output is '%s': %s" % (v, ol), {"oracle_line": ol})
+    ctx.count("loop-sort-oracle", len(olines), len(set(olines)))
 
 
 def depth_stage(ctx, rep, exe):
@@ -387,6 +392,31 @@ def depth_stage(ctx, rep, exe):
     ctx.notes.append("Memory::Sort recursion depth %d on sorted/reversed input tolerated by the harness build (observation; depth is not modelled)" % n)
 
 
+def replay_stage(ctx, exe, drv):
+    """--replay <file>: re-run the input lines recorded in a replay file (or a plain text file of harness lines)
+    through the implementation and the model and show both."""
+    import json
+    txt = open(ctx.replay).read()
+    lines = []
+    try:
+        js = json.loads(txt)
+        for f in js.get("failures", []):
+            r = f.get("replay", {})
+            if "line" in r:
+                lines.append(r["line"])
+        for b in js.get("broken_correspondence", []):
+            lines += [e["input"] for e in b.get("examples", [])]
+    except ValueError:
+        lines = [l.strip() for l in txt.split("\n") if l.strip() and not l.startswith("#")]
+    lines = list(dict.fromkeys(lines))
+    if not lines:
+        ctx.infra_errors.append("replay file has no input lines")
+        return
+    impl, model = run_both(ctx, exe, drv, "replay", lines)
+    for l, i, m in zip(lines, impl, model):
+        core.log("replay: %s\n  impl : %s\n  model: %s" % (l, i, m))
+
+
 def run(ctx):
     ctx.gen_constants(["Order"])
     ctx.prove(["Qentem.Props.C15"], THEOREMS, open_statements=OPEN)
@@ -395,6 +425,9 @@ def run(ctx):
     if not (drv and exe):
         return
     rep = Reporter(ctx)
+    if getattr(ctx, "replay", None):
+        replay_stage(ctx, exe, drv)
+        return
     strings_stage(ctx, rep, exe, drv)
     values_stage(ctx, rep, exe, drv)
     sorts_stage(ctx, rep, exe, drv)
